@@ -56,6 +56,10 @@ theorem St_eq {a b : St} (ths : a.ths = b.ths) (atoms : a.atoms = b.atoms)
     (chanRel : a.chanRel = b.chanRel) (rxDropped : a.rxDropped = b.rxDropped)
     (chanLeft : a.chanLeft = b.chanLeft) (arcs : a.arcs = b.arcs)
     (handles : a.handles = b.handles) (tracks : a.tracks = b.tracks)
+    (tlsInits : a.tlsInits = b.tlsInits) (tlsDrops : a.tlsDrops = b.tlsDrops)
+    (tlsObs : a.tlsObs = b.tlsObs) (lazyInit : a.lazyInit = b.lazyInit)
+    (lazyRel : a.lazyRel = b.lazyRel) (lazyDropped : a.lazyDropped = b.lazyDropped)
+    (futs : a.futs = b.futs)
     (verdict : a.verdict = b.verdict) : a = b := by
   cases a; cases b; simp_all
 
